@@ -187,6 +187,9 @@ def gen_plan(seed: int, tier: str):
         'arr_len': d.pick([1, 3, 40, 1100, 3000]),
         'bufsize': d.weighted([(8192, 5), (4096, 1), (512, 2), (64, 1)]),
         'dir_state': d.pick(['absent', 'empty', 'parent_absent']),
+        # study directory names users really choose: spaces, brackets, glob and regex metacharacters, non-ASCII
+        'dir_name': d.weighted([('study', 6), ('io [ecc-visc]', 1), ('run[3]', 1), ('results (v2) 2024-05-01', 1), ('x*y?', 1),
+                                ('Étude_β', 1), ('a+b.c', 1)]),
         'listdir_seed': d.below(1000),
         'tick': d.pick([0.001, 0.01, 1.0]),
         'case_seconds': d.pick([0.1, 5.0, 600.0, 3600.0, 40000.0]),
@@ -299,7 +302,7 @@ def shrink_candidates(plan):
             yield new
     # plain configuration
     for key, plain in (('arr_len', 1), ('bufsize', 8192), ('postprocess', False), ('verbose', False),
-                       ('dir_state', 'absent'), ('tick', 0.001), ('case_seconds', 0.1), ('memcheck', False),
+                       ('dir_state', 'absent'), ('dir_name', 'study'), ('tick', 0.001), ('case_seconds', 0.1), ('memcheck', False),
                        ('avoid_crashes', True), ('listdir_seed', 0)):
         if plan.get(key) != plain:
             new = copy.deepcopy(plan)
